@@ -19,7 +19,7 @@ import (
 
 var eParkingSites = map[string]bool{
 	"en.s.offer": true, "en.s.closee": true,
-	"en.w.got": true, "en.w.send": true,
+	"en.w.got": true, "en.w.send": true, "en.w.exit": true,
 	"en.c.recv": true,
 }
 
@@ -27,6 +27,7 @@ const (
 	eIdle = iota
 	eAtGot
 	eAtSend
+	eAtExit // `range eCh` has ended, the worker is about to return (and run its deferred decrement)
 	eExited
 )
 
@@ -127,11 +128,10 @@ func (p *esched) idleAgain(i int) bool {
 	}
 	g := p.wG[i]
 	if _, ok := p.c.await(func(e pevent) bool { return e.g == g && e.site == "en.w.exit" }); !ok {
-		return p.failf("worker %d: eCh is closed but the worker did not return", i)
+		return p.failf("worker %d: eCh is closed but the worker did not leave its loop", i)
 	}
-	p.emit(fmt.Sprintf("workerExit %d", i))
-	p.wPhase[i] = eExited
-	return p.afterReturn()
+	p.wPhase[i] = eAtExit
+	return true
 }
 
 func (p *esched) choices() []choice {
@@ -153,6 +153,8 @@ func (p *esched) choices() []choice {
 			} else {
 				p.r.Count("eproto:worker-blocked-on-full-rCh")
 			}
+		case eAtExit:
+			cs = append(cs, choice{"exit", i})
 		}
 	}
 	if p.cPhase == cParked {
@@ -198,11 +200,25 @@ func (p *esched) exec(ch choice) bool {
 		for j := 0; j < k; j++ {
 			e, ok := c.await(site("en.w.exit"))
 			if !ok {
-				return p.failf("eCh closed but an idle worker did not return")
+				return p.failf("eCh closed but an idle worker did not leave its loop")
 			}
 			i := p.workerIndex(e.g)
-			p.emit(fmt.Sprintf("workerExit %d", i))
-			p.wPhase[i] = eExited
+			p.wPhase[i] = eAtExit
+		}
+		return p.afterReturn()
+	case "exit":
+		// the worker's return after `range eCh` ended (with the deferred decrement
+		// of the close counter): a separate step, so that a worker about to return
+		// can be overtaken by workers still sending and by the cancellation
+		g := p.wG[ch.w]
+		c.release(g)
+		p.emit(fmt.Sprintf("workerExit %d", ch.w))
+		p.wPhase[ch.w] = eExited
+		for _, ph := range p.wPhase {
+			if ph == eAtGot || ph == eAtSend {
+				p.r.Count("eproto:worker-returned-while-others-busy")
+				break
+			}
 		}
 		return p.afterReturn()
 	case "enrich":
@@ -319,7 +335,13 @@ func enrichScenario(rnd *hx.Rand, count func(string)) *scenario {
 	return sc
 }
 
-func controlledEnrich(r *hx.Run, rnd *hx.Rand, sc *scenario, lim int, injectCancel bool) {
+func controlledEnrich(r *hx.Run, rnd *hx.Rand, sc *scenario, lim int, injectCancel bool) int {
+	return controlledEnrichAt(r, rnd, sc, lim, injectCancel, -1)
+}
+
+// controlledEnrichAt: cancelAt >= 0 cancels the caller's Context exactly before
+// that step; the number of steps taken is returned.
+func controlledEnrichAt(r *hx.Run, rnd *hx.Rand, sc *scenario, lim int, injectCancel bool, cancelAt int) int {
 	old := runtime.GOMAXPROCS(lim)
 	defer runtime.GOMAXPROCS(old)
 	w := newWorld(sc, nil)
@@ -349,6 +371,7 @@ func controlledEnrich(r *hx.Run, rnd *hx.Rand, sc *scenario, lim int, injectCanc
 		res.vr, res.err = matcher.EnrichedMatch(ctx, w.ir, w.matchers, w.enrichers, w.store)
 	}()
 	ok := true
+	nsteps := 0
 	e, got := c.await(func(e pevent) bool { return e.site == "en.s.offer" || e.site == "en.s.closee" })
 	if !got {
 		ok = p.failf("the enrichment sender never reached its loop")
@@ -364,11 +387,17 @@ func controlledEnrich(r *hx.Run, rnd *hx.Rand, sc *scenario, lim int, injectCanc
 		if injectCancel && !p.cancelled && rnd.Chance(1, 10) {
 			cs = []choice{{kind: "cancelParent"}}
 		}
+		if steps == cancelAt && !p.cancelled {
+			p.exec(choice{kind: "cancelParent"})
+			r.Count("eproto:cancel-swept")
+			cs = p.choices()
+		}
 		if len(cs) == 0 {
 			ok = p.failf("no goroutine can make a step although not all have returned (senderDone=%v collector=%d buf=%d/%d)", p.sDone, p.cPhase, p.buf, p.lim)
 			break
 		}
 		ok = p.exec(cs[rnd.Intn(len(cs))])
+		nsteps++
 	}
 	witness := func() string {
 		return fmt.Sprintf("lim=%d scenario=[%s] schedule=[%s]", lim, strings.Join(sc.lines("")[1:], " | "), strings.Join(p.trace, "; "))
@@ -389,7 +418,7 @@ func controlledEnrich(r *hx.Run, rnd *hx.Rand, sc *scenario, lim int, injectCanc
 			hangs.Add(1)
 			r.Fail("", "controlled-schedule(enrichment): "+p.failure+"; the call did not return even after all goroutines were released "+witness())
 		}
-		return
+		return nsteps
 	}
 	var res result
 	select {
@@ -397,7 +426,7 @@ func controlledEnrich(r *hx.Run, rnd *hx.Rand, sc *scenario, lim int, injectCanc
 	case <-time.After(callTimeout):
 		close(c.abort)
 		r.Fail("", "controlled-schedule(enrichment): every goroutine of the phase returned but EnrichedMatch did not "+witness())
-		return
+		return nsteps
 	}
 	close(c.abort)
 	r.Op("e-final", fmt.Sprintf("final=1 err=%d collected=%d skipped=%d", b2i(res.err != nil || res.panic), p.collected, p.skipped), true)
@@ -440,4 +469,5 @@ func controlledEnrich(r *hx.Run, rnd *hx.Rand, sc *scenario, lim int, injectCanc
 	} else if res.leak > 0 {
 		r.Fail("", fmt.Sprintf("controlled-schedule(enrichment): goroutines-leaked n=%d %s", res.leak, witness()))
 	}
+	return nsteps
 }
